@@ -32,6 +32,8 @@ STRUCTS = [["i32", "u8"], ["i64", "i16", "u32"], ["u16"], ["i8", "i8", "u64"], [
 NSTRUCT = 8
 def is_array(t): return is_struct(t) and sid_of(t) >= NSTRUCT
 def is_struct(t): return isinstance(t, str) and t[0] == "S"
+def is_mutref(t): return isinstance(t, str) and t[0] == "&"      # "&S3": parameter type &'S3 (mutable reference)
+def base_ty(t): return t[1:] if is_mutref(t) else t
 def sid_of(t): return int(t[1:])
 def fields_of(t): return STRUCTS[sid_of(t)]
 def structs_coq(): return "[" + "; ".join("[" + "; ".join(f.upper() for f in fs) + "]" for fs in STRUCTS) + "]"
@@ -48,6 +50,7 @@ def wrap(t, x):
 # ------------------------------------------------------------------ rendering to Ferret
 
 def r_ty(t):
+    if is_mutref(t): return "&'" + r_ty(t[1:])
     if is_array(t): return "[%d]%s" % (len(fields_of(t)), fields_of(t)[0])
     return t
 
@@ -62,9 +65,15 @@ def r_expr(e):
     if k == "un": return "(%s%s)" % (e[1], r_expr(e[2]))
     if k == "cast": return "(%s as %s)" % (r_expr(e[1]), e[2])
     if k == "call":
+        pts = FNPARAMS[e[1]] if 0 <= e[1] < len(FNPARAMS) else []
+        def arg(i, a):
+            if i < len(pts) and is_mutref(pts[i]):
+                # by mutable reference: &'x for a local, the bare name for a parameter that already is a reference
+                return r_expr(a) if (a[0] == "var" and a[1] in REFVARS) else "&'" + r_expr(a)
+            return r_expr(a)
         if e[1] in METHODS and e[2]:
-            return "%s.m%d(%s)" % (r_expr(e[2][0]), e[1], ", ".join(r_expr(a) for a in e[2][1:]))
-        return "%s%d(%s)" % ("m" if e[1] in METHODS else "f", e[1], ", ".join(r_expr(a) for a in e[2]))
+            return "%s.m%d(%s)" % (r_expr(e[2][0]), e[1], ", ".join(arg(i + 1, a) for i, a in enumerate(e[2][1:])))
+        return "%s%d(%s)" % ("m" if e[1] in METHODS else "f", e[1], ", ".join(arg(i, a) for i, a in enumerate(e[2])))
     if k == "slit":
         if e[1] >= NSTRUCT: return "[%s]" % ", ".join(r_expr(a) for a in e[2])
         return "({ %s } as S%d)" % (", ".join(".F%d = %s" % (i, r_expr(a)) for i, a in enumerate(e[2])), e[1])
@@ -122,6 +131,14 @@ def r_stmt(s, ind):
     raise ValueError(s)
 
 METHODS = set()     # indexes of the functions of the program being rendered that are methods (set by to_ferret)
+FNPARAMS = []       # parameter types of every function of the program being rendered
+REFVARS = set()     # variables that are by-reference parameters (variable numbers are unique in a program)
+
+def _set_context(prog):
+    global METHODS, FNPARAMS, REFVARS
+    METHODS = {k for k, f in enumerate(prog) if f.get("method")}
+    FNPARAMS = [[t for _, t in f["params"]] for f in prog]
+    REFVARS = {x for f in prog for x, t in f["params"] if is_mutref(t)}
 
 def r_fn(k, f, is_main):
     name = "main" if is_main else "f%d" % k
@@ -137,9 +154,8 @@ import threading
 _render_lock = threading.RLock()      # the renderers keep per-program state in module globals (METHODS, _match_tmp)
 
 def to_ferret(prog):
-    global METHODS
     with _render_lock:
-        METHODS = {k for k, f in enumerate(prog) if f.get("method")}
+        _set_context(prog)
         body = []
         for k, f in enumerate(prog):
             body += r_fn(k, f, k == len(prog) - 1)
@@ -157,6 +173,7 @@ def c_ty(t):
     if t == "bool": return "TBool"
     if t == "void": return "TVoid"
     if is_struct(t): return "(TStruct %d)" % sid_of(t)
+    if is_mutref(t): return "(TMutRef %d)" % sid_of(t[1:])
     return "(TInt %s)" % c_ity(t)
 
 def c_expr(e, types=None):
@@ -167,7 +184,12 @@ def c_expr(e, types=None):
     if k == "bin": return "(EBin %s %s %s)" % (COQ_OP[e[1]], c_expr(e[2]), c_expr(e[3]))
     if k == "un": return "(EUn %s %s)" % ("Neg" if e[1] == "-" else "Not", c_expr(e[2]))
     if k == "cast": return "(ECast %s %s)" % (c_expr(e[1]), c_ity(e[2]))
-    if k == "call": return "(ECall %d [%s])" % (e[1], "; ".join(c_expr(a) for a in e[2]))
+    if k == "call":
+        pts = FNPARAMS[e[1]] if 0 <= e[1] < len(FNPARAMS) else []
+        if any(is_mutref(t) for t in pts):
+            return "(ECallR %d [%s])" % (e[1], "; ".join("(%s, %s)" % ("true" if (i < len(pts) and is_mutref(pts[i])) else "false", c_expr(a))
+                                                            for i, a in enumerate(e[2])))
+        return "(ECall %d [%s])" % (e[1], "; ".join(c_expr(a) for a in e[2]))
     if k == "slit": return "(EStructLit %d [%s])" % (e[1], "; ".join(c_expr(a) for a in e[2]))
     if k == "field": return "(EField %s %d)" % (c_expr(e[1]), e[2])
     raise ValueError(e)
@@ -218,6 +240,7 @@ def to_coq(prog):
     global _match_tmp
     with _render_lock:
         _match_tmp = 0
+        _set_context(prog)
         return "[" + ";\n   ".join(c_fn(f) for f in prog) + "]"
 
 def c_lines(lines):
@@ -280,6 +303,13 @@ class Gen:
         self.gate_eager_logic = False     # (was a gate for F-LOGIC-EAGER, repaired by 31686fd)
         self.gate_self_operand = False    # (was a gate for F-QBE-SELF-OPERAND, repaired by 340ec5d)
         self.structs = True               # struct-typed locals, parameters, results, field reads and writes
+        self.refs = True                  # parameters passed by mutable reference (&'S), written through by the callee
+        self.refparams = set()            # by-reference parameters of the function being generated
+        # the borrow checker keeps a mutable borrow alive to the end of the statement: within one statement a variable that is
+        # lent (&'x) may be read before the call (left to right) but is not mentioned after it, and is not the target of the
+        # statement's assignment (stmt_used holds the assignment target)
+        self.stmt_used = set()
+        self.stmt_lent = set()
 
     def feat(self, k):
         self.features[k] = self.features.get(k, 0) + 1
@@ -300,7 +330,24 @@ class Gen:
         return ("lit", t, max(lo, min(hi, v)))
 
     def vars_of(self, env, t):
-        return [x for sc in env for x, (ty, _) in sc.items() if ty == t]
+        # a by-reference parameter is read through its fields or copied by `let`; it is not used as a whole value elsewhere
+        return [x for sc in env for x, (ty, _) in sc.items() if ty == t and x not in self.refparams and x not in self.stmt_lent]
+
+    def borrowable(self, env, t, taken=()):
+        return [x for sc in env for x, (ty, const) in sc.items() if ty == t and not const and x not in taken
+                and x not in self.stmt_used and x not in self.stmt_lent]
+
+    def callable_in(self, k, env):
+        taken = []
+        for pt in self.fns[k][0]:
+            if is_mutref(pt):
+                c = self.borrowable(env, pt[1:], taken)
+                if not c: return False
+                taken.append(c[0])
+        return True
+
+    def cands(self, env, pred):
+        return [k for k, f in enumerate(self.fns) if pred(f) and self.callable_in(k, env)]
 
     def int_expr(self, t, env, d, nonlit=False):
         r = self.rng
@@ -313,8 +360,8 @@ class Gen:
         if d > 0:
             choices += ["arith"] * 4 + ["cast"] * 1
             if signed(t): choices += ["neg"]
-            if any(f[1] == t for f in self.fns): choices += ["call"] * 2
-            if self.structs and any(is_struct(f[1]) and t in fields_of(f[1]) and not f[2] for f in self.fns): choices += ["callfield"]
+            if self.cands(env, lambda f: f[1] == t): choices += ["call"] * 2
+            if self.structs and self.cands(env, lambda f: is_struct(f[1]) and t in fields_of(f[1]) and not f[2]): choices += ["callfield"]
         if not choices:
             raise RuntimeError("no variable of type %s in scope (prelude missing?)" % t)
         c = r.choice(choices)
@@ -325,7 +372,7 @@ class Gen:
             return ("field", ("var", x), k, arr)
         if c == "callfield":
             self.feat("call-field-read")
-            k = r.choice([k for k, f in enumerate(self.fns) if is_struct(f[1]) and t in fields_of(f[1]) and not f[2]])
+            k = r.choice(self.cands(env, lambda f: is_struct(f[1]) and t in fields_of(f[1]) and not f[2]))
             st = self.fns[k][1]
             return ("field", ("call", k, self.call_args(k, env, d)), r.choice([i for i, ft in enumerate(fields_of(st)) if ft == t]), is_array(st))
         if c == "lit": return self.lit(t)
@@ -365,7 +412,7 @@ class Gen:
         if not nonlit: choices += ["lit"]
         if d > 0:
             choices += ["and", "or", "not"]
-            if any(f[1] == "bool" for f in self.fns): choices += ["call"]
+            if self.cands(env, lambda f: f[1] == "bool"): choices += ["call"]
         c = r.choice(choices)
         if c == "var": return ("var", r.choice(vs))
         if c == "lit": return ("bool", r.random() < 0.5)
@@ -391,16 +438,18 @@ class Gen:
         return ("bin", op, self.int_expr(t, env, max(d - 1, 0), nonlit=True), self.int_expr(t, env, max(d - 1, 0)))
 
     def fields_in_scope(self, env, t):
-        return [(x, k, is_array(ty)) for sc in env for x, (ty, _) in sc.items() if is_struct(ty) for k, ft in enumerate(fields_of(ty)) if ft == t]
+        return [(x, k, is_array(ty)) for sc in env for x, (ty, _) in sc.items() if is_struct(ty) and x not in self.stmt_lent
+                for k, ft in enumerate(fields_of(ty)) if ft == t]
 
     def struct_expr(self, t, env, d):
         r = self.rng
         choices = ["slit"] * 2
         vs = self.vars_of(env, t)
         if vs: choices += ["var"] * 3
-        if d > 0 and any(f[1] == t for f in self.fns): choices += ["call"] * 2
+        if d > 0 and self.cands(env, lambda f: f[1] == t): choices += ["call"] * 2
         c = r.choice(choices)
-        if c == "var": return ("var", r.choice(vs))
+        if c == "var":
+            return ("var", r.choice(vs))
         if c == "call": return self.call_expr(t, env, d)
         self.feat("struct-lit")
         return ("slit", sid_of(t), [self.int_expr(ft, env, max(d - 1, 0)) for ft in fields_of(t)])
@@ -411,15 +460,27 @@ class Gen:
 
     def call_expr(self, t, env, d):
         r = self.rng
-        cands = [k for k, f in enumerate(self.fns) if f[1] == t]
+        cands = self.cands(env, lambda f: f[1] == t)
         k = r.choice(cands)
         return ("call", k, self.call_args(k, env, d))
 
     def call_args(self, k, env, d):
         pts, ret, rec = self.fns[k]
+        # variables lent by mutable reference: distinct, and not mentioned anywhere else in the arguments of this call
+        lent = {}
+        for i, pt in enumerate(pts):
+            if is_mutref(pt):
+                lent[i] = self.rng.choice(self.borrowable(env, pt[1:], lent.values()))
+                self.stmt_lent.add(lent[i])
+                self.feat("arg-by-reference")
+        if lent:
+            gone = set(lent.values())
+            env = [{x: v for x, v in sc.items() if x not in gone} for sc in env]
         args = []
         for i, pt in enumerate(pts):
-            if rec and i == 0:
+            if i in lent:
+                args.append(("var", lent[i]))
+            elif rec and i == 0:
                 args.append(("lit", "i32", self.rng.randint(0, 4)))
             else:
                 args.append(self.expr(pt, env, max(d - 1, 0)))
@@ -446,6 +507,7 @@ class Gen:
     def stmt(self, env, d, inloop, ret, protected):
         r = self.rng
         self.budget -= 1
+        self.stmt_used, self.stmt_lent = set(), set()
         assignable = [(x, ty) for sc in env for x, (ty, const) in sc.items() if not const and x not in protected]
         choices = ["let"] * 4 + ["print"] * 3
         if assignable: choices += ["assign"] * 3 + ["cassign"] * 2 + ["inc"]
@@ -454,7 +516,8 @@ class Gen:
         if d > 0 and self.budget > 3:
             choices += ["if"] * 3 + ["while"] * 2 + ["block"] + ["for"] * 2 + ["match"] * 2
         if inloop and r.random() < 0.15: choices += ["break", "continue"]
-        if any(f[1] == "void" for f in self.fns): choices += ["callstmt"]
+        if self.cands(env, lambda f: f[1] == "void"): choices += ["callstmt"]
+        if self.refparams and r.random() < 0.3: choices += ["copyref"]
         if ret is not None and d < self.max_depth and r.random() < 0.12: choices += ["return"] * 2
         c = r.choice(choices)
         self.feat("s:" + c)
@@ -468,7 +531,9 @@ class Gen:
         if c == "print":
             vs = [(x, ty) for sc in env for x, (ty, _) in sc.items()]
             es = []
+            vs0 = vs
             for _ in range(r.randint(1, 3)):
+                vs = [(x, ty) for x, ty in vs0 if x not in self.stmt_lent]
                 if vs and r.random() < 0.6:
                     x, ty = r.choice(vs)
                     es.append(("field", ("var", x), r.randrange(len(fields_of(ty))), is_array(ty)) if is_struct(ty) else ("var", x))
@@ -477,9 +542,11 @@ class Gen:
             return ("print", es)
         if c == "assign":
             x, t = r.choice(assignable)
+            self.stmt_used.add(x)
             return ("assign", x, self.expr(t, env, r.randint(0, 3)))
         if c == "assignf":
             x, ty = r.choice(sassignable)
+            self.stmt_used.add(x)
             k = r.randrange(len(fields_of(ty)))
             ft = fields_of(ty)[k]
             if r.random() < 0.6:
@@ -574,8 +641,16 @@ class Gen:
             return ("match", e, t, arms, default)
         if c == "break": return ("break",)
         if c == "continue": return ("continue",)
+        if c == "copyref":
+            # let c: S = r;  (a by-value copy of what the reference designates)
+            y = r.choice(sorted(self.refparams))
+            t = [ty for sc in env for x, (ty, _) in sc.items() if x == y][0]
+            x = self.fresh()
+            env[-1][x] = (t, False)
+            self.feat("copy-of-reference")
+            return ("let", x, t, ("var", y), False)
         if c == "callstmt":
-            k = r.choice([k for k, f in enumerate(self.fns) if f[1] == "void"])
+            k = r.choice(self.cands(env, lambda f: f[1] == "void"))
             return ("expr", ("call", k, self.call_args(k, env, 2)))
         if c == "return":
             return ("return", None if ret == "void" else self.expr(ret, env, r.randint(0, 2)))
@@ -598,25 +673,45 @@ class Gen:
                 out.append(("let", x, t, e, False))
         return out
 
-    def function(self, k):
+    def function(self, k, force=None):
+        """force = (parameter types, result type, method?) pins the signature (used for the evaluation-order kit)"""
         r = self.rng
         ret = r.choice(["void"] + [self.any_ty(with_struct=True)] * 3)
         rec = ret != "void" and ret != "bool" and not is_struct(ret) and r.random() < 0.35
         params = []
+        method = False
+        if force is not None:
+            pts, ret, method = force
+            rec = False
+            params = [(self.fresh(), t) for t in pts]
         if rec:
             params.append((self.fresh(), "i32"))
-        method = False
-        if self.structs and not rec and r.random() < 0.35:
+        if force is None and self.structs and not rec and r.random() < 0.35:
             method = True
             params.append((self.fresh(), "S%d" % r.randrange(NSTRUCT)))      # a receiver is a named type
             self.feat("method")
-        for _ in range(r.randint(0, 3)):
-            params.append((self.fresh(), self.any_ty(with_struct=True)))
-        env = [{x: (t, False) for x, t in params}]
+        for _ in range(r.randint(0, 3) if force is None else 0):
+            t = self.any_ty(with_struct=True)
+            if self.refs and self.structs and not rec and r.random() < 0.22:
+                t = "&S%d" % r.randrange(len(STRUCTS))
+                self.feat("param-by-reference")
+            params.append((self.fresh(), t))
+        self.refparams = {x for x, t in params if is_mutref(t)}
+        env = [{x: (base_ty(t), False) for x, t in params}]
         body = self.prelude(env)
         if rec:
             n = params[0][0]
             body.append(("if", ("bin", "<=", ("var", n), ("lit", "i32", 0)), [("return", self.expr(ret, env, 1))], []))
+        for x in sorted(self.refparams):
+            # write through the reference at least once (component store, compound store or whole-value store)
+            t = env[0][x][0]
+            k = r.randrange(len(fields_of(t)))
+            ft = fields_of(t)[k]
+            c = r.random()
+            if c < 0.45: body.append(("assignf", x, k, self.int_expr(ft, env, 2), is_array(t)))
+            elif c < 0.8: body.append(("cassignf", x, k, r.choice(["+", "-", "*"]), self.int_expr(ft, env, 1), is_array(t)))
+            elif c < 0.92: body.append(("assign", x, ("slit", sid_of(t), [self.int_expr(f_, env, 1) for f_ in fields_of(t)])))
+            self.feat("write-through-reference")
         self.budget = r.randint(2, 8)
         body += self.block(env, min(2, self.max_depth), False, ret, r.randint(1, 5), {params[0][0]} if rec else set())
         if body and body[-1][0] == "return":
@@ -649,9 +744,31 @@ class Gen:
         prog = []
         for k in range(r.randint(0, 3)):
             prog.append(self.function(k))
+        kit = None
+        if self.refs and self.structs and r.random() < 0.4:
+            # evaluation-order kit: an aggregate passed by value (receiver or first argument) must be taken before a later
+            # argument of the same call changes the variable through a reference:  x.m(g(&'x, e))  /  f(x, g(&'x, e))
+            sid = r.randrange(len(STRUCTS))
+            st, it = "S%d" % sid, r.choice(self.itys)
+            ka = len(prog); prog.append(self.function(ka, force=([st, it], it, sid < NSTRUCT and r.random() < 0.7)))
+            kb = len(prog); prog.append(self.function(kb, force=(["&" + st, it], it, False)))
+            kit = (st, it, ka, kb)
+            self.feat("evaluation-order-kit")
         self.budget = self.max_stmts if getattr(self, "long_main", False) else r.randint(self.max_stmts // 3, self.max_stmts)
+        self.refparams = set()
         env = [{}]
         body = self.prelude(env)
+        if kit:
+            st, it, ka, kb = kit
+            x = self.fresh()
+            env[-1][x] = (st, False)
+            body.append(("let", x, st, ("slit", sid_of(st), [self.lit(ft) for ft in fields_of(st)]), False))
+            for _ in range(r.randint(1, 2)):
+                self.stmt_used, self.stmt_lent = set(), {x}
+                inner = ("call", kb, [("var", x), self.int_expr(it, env, 1)])
+                body.append(("print", [("call", ka, [("var", x), inner])]))
+                body.append(("print", [("field", ("var", x), k_, is_array(st)) for k_ in range(min(3, len(fields_of(st))))]))
+            self.stmt_used, self.stmt_lent = set(), set()
         body += self.block(env, self.max_depth, False, None, self.max_stmts, set())
         prog.append(dict(params=[], ret="void", body=body))
         return prog
